@@ -175,9 +175,11 @@ Proof.
 Qed.
 
 (* config.RecursionFirewallConfig.Normalize as translated from the source (a receiver-mutating method: the translation
-   hands back the final receiver) is norm_model.  The generated term is a tree of 2^12 paths — twelve sequential
-   `if field == 0 { field = default }` statements —; each path is decided by which fields are zero, so the proof is a
-   case split on the head constructor of every field followed by computation. *)
+   hands back the final receiver; item flag join_ifs: twelve `let v_c := if field == 0 then <updated> else v_c in …` in a
+   row, 10 KB) is norm_model.  Which branch each step takes is decided by whether its field is zero, so the proof splits
+   every field on its head constructor and computes (13 824 cases, about 20 s).  A proof linear in the number of steps
+   was tried and left: every way of peeling the head `let` (change / eapply of a let lemma) made the tactic unifier
+   zeta-expand the whole chain. *)
 Lemma gen_normalize : forall c, go_RecursionFirewallConfig_Normalize c = norm_model c.
 Proof.
   intros [m f1 f2 f3 f4 f5 f6 f7 f8 s [tmin] [tmax]].
